@@ -59,6 +59,8 @@ WayVerdict(kd, way) ==
       [] way = "write" -> RVerdict(QCell(kd, "assign", QPath(kd), 0))
       [] way = "forward" -> RVerdict(QCell(kd, "arg", <<>>, ForwardK(kd)))
       \* handing q on to `extern fn gx(r: &[]i32)`: q is a variable declared with the parameter type
+      \* a slice pointer handed on to g(r: &[]i32) with a surplus address marker: `g(&&q)`
+      [] way = "forward2" -> ArgOK(ParamType(ParamShape(kd)), 2, SPtr(I32t))
       [] way = "xfwd" -> ArgOK(ParamType(ParamShape(kd)), 0, XPtr)
       [] way = "xfwdamp" -> ArgOK(ParamType(ParamShape(kd)), 1, XPtr)
 ArgVerdict(kd, amp) == ArgOK(ArgDecl(kd), amp, ParamShape(kd))
@@ -75,7 +77,7 @@ Before == [x |-> 1, a0 |-> 2, a1 |-> 3, sm |-> 4, wm |-> 5]
 Written(i) == 10 + i                       \* the value parameter i writes
 \* a parameter reaches the caller's cell only through an address the caller wrote
 Reaches(p) == p.amp >= 1 /\ p.kd \in {"sptr", "ptr", "pptr", "xsptr"}
-Writes(p)  == p.way \in {"write", "forward", "xfwd", "xfwdamp"}
+Writes(p)  == p.way \in {"write", "forward", "forward2", "xfwd", "xfwdamp"}
 RECURSIVE Run(_, _, _)
 Run(prog, i, cells) == IF i > Len(prog) THEN cells
                        ELSE Run(prog, i + 1, IF Writes(prog[i]) /\ Reaches(prog[i])
